@@ -13,7 +13,7 @@ from hgsim.util import canon, digest
 
 ID = "C11"
 LEVEL = "fault_enumeration"
-BUDGET = {"quick": (8, 40, 45), "thorough": (16, 2500, 600)}
+BUDGET = {"quick": (8, 100, 90), "thorough": (16, 2500, 600)}
 RULE = (
     "seeded general programs (flat, nested to depth 2, mapped, gated, looping); a fault-free reference run lists every (function node, "
     "invocation index<2) that occurs; EVERY such point is then injected as the failing one, one at a time (plus sampled pairs in one step), "
